@@ -273,6 +273,13 @@ class FsExecutor(object):
             if r != E['BADF']:
                 self.fail('ebadf:fd_write', 'fd_write on closed standard descriptor %d returned %s instead of BADF' % (fd, ename(r)))
             return
+        if fd == 0:
+            # standard input of the agent is a regular file opened read-only: writev(2) on such a descriptor is EBADF (and nothing
+            # else - whatever the host does with its standard streams on the way must not change the error)
+            if r != E['BADF']:
+                self.fail('errno:fd_write', 'fd_write to descriptor 0 (the host\'s standard input, a file opened read-only) returned %s, writev gives BADF' % ename(r))
+            self.flags.add('failing_write_on_standard_stream')
+            return
         if fd in (1, 2):
             if r != 0:
                 self.fail('stdio', 'fd_write to standard stream %d failed with %s' % (fd, ename(r)))
@@ -415,6 +422,16 @@ class FsExecutor(object):
             if data != want[:len(data)] or (got < len(want) and got < sum(lens) and got == 0 and want):
                 self.fail('stdio', 'fd_read(0) returned %r, standard input holds %r' % (data, want))
             self.stdin_pos += got
+            return
+        if fd in self.std_closed:
+            if r != E['BADF']:
+                self.fail('ebadf:fd_read', 'fd_read on closed standard descriptor %d returned %s instead of BADF' % (fd, ename(r)))
+            return
+        if fd in (1, 2):
+            # standard output / error of the agent are files opened write-only (append): readv(2) is EBADF
+            if r != E['BADF']:
+                self.fail('errno:fd_read', 'fd_read from descriptor %d (a file opened write-only) returned %s, readv gives BADF' % (fd, ename(r)))
+            self.flags.add('failing_read_on_standard_stream')
             return
         d = self.fds[fd]
         bufs = [bytearray(l) for l in lens]
